@@ -186,6 +186,9 @@ fn identifier_sources_inner(started: bool, epmd_creation: Option<u32>, ctx: &cra
         let cr = nw.node.creation();
         if let Some(want) = epmd_creation { if cr != want { res.violations.push(("the node does not carry the creation EPMD assigned".into(), json!({"assigned": want, "node_creation": cr}))); } }
         let mut keys: Vec<(u32, u32, u32)> = pids.iter().map(|p| (p.1, p.2, p.3)).collect();
+        // processes spawned before the node was started are still alive: their identifiers count as well
+        if crate::world::pre_start_use() { keys.extend(crate::world::early_ids()); }
+        if std::env::var("NETMC_DEBUG").is_ok() { eprintln!("DEBUG early={:?} pre={} first={:?}", crate::world::early_ids(), crate::world::pre_start_use(), &pids[..3]); }
         keys.sort();
         let dup = keys.windows(2).any(|w| w[0] == w[1]);
         let r = nw.node.make_reference();
@@ -200,7 +203,7 @@ fn identifier_sources_inner(started: bool, epmd_creation: Option<u32>, ctx: &cra
 
 pub fn run(rep: &Report) -> Value {
     // (node started?, creation EPMD assigns, identifiers made before start)
-    let src = [(true, None, false), (false, None, false), (true, Some(2), false), (true, Some(0x1_0001), false), (true, Some(u32::MAX), false), (true, Some(0x1_0001), true), (true, None, true)];
+    let src = [(true, None, false), (false, None, false), (true, Some(2), false), (true, Some(0x1_0001), false), (true, Some(u32::MAX), false), (true, Some(0x1_0001), true), (true, None, true), (true, Some(1), true), (true, Some(1), false)];
     let st_src = crate::explore::for_all(rep, "all sources of process identifiers", &src, |k, ctx| identifier_sources_exec(k, ctx));
     let ks: Vec<usize> = (0..=6).collect();
     let st_u = crate::explore::for_all(rep, "references around failing unlinks", &ks, |k, ctx| failing_unlinks_exec(k, ctx));
